@@ -23,3 +23,5 @@ open Bpmn.Props.C09
 #print axioms current_progress
 #print axioms current_relay
 #print axioms current_positive_sides
+#print axioms two_relays_each_hold_everything
+#print axioms two_relays_forward_twice
